@@ -7,6 +7,7 @@ import (
 	"testing"
 
 	age "github.com/craterdog/go-collection-framework/v4/agent"
+	col "github.com/craterdog/go-collection-framework/v4/collection"
 	"verifharness/core"
 	"verifharness/lib"
 	"verifharness/model"
@@ -186,6 +187,64 @@ type cyclicCase struct {
 	V        model.Val `json:"value"`
 	Op       string    `json:"op"`    // compare rank
 	Other    string    `json:"other"` // self copy
+	Via      string    `json:"via,omitempty"` // "association": the cycle passes through a standalone Association held by the outermost collection
+}
+
+// buildViaAssociation builds a collection of the given kind that holds an Association whose value is the
+// collection itself.
+func buildViaAssociation(kind string, siblings int) any {
+	n := model.Notation()
+	A := col.Association[any, any](n)
+	switch kind {
+	case "Array":
+		a := col.Array[any](n).Make(uint(siblings + 1))
+		for k := 0; k < siblings; k++ {
+			a.SetValue(k+1, int64(k))
+		}
+		a.SetValue(siblings+1, A.Make("self", a))
+		return a
+	case "Stack":
+		x := col.Stack[any](n).Make()
+		for k := 0; k < siblings; k++ {
+			x.AddValue(int64(k))
+		}
+		x.AddValue(A.Make("self", x))
+		return x
+	case "Queue":
+		x := col.Queue[any](n).Make()
+		for k := 0; k < siblings; k++ {
+			x.AddValue(int64(k))
+		}
+		x.AddValue(A.Make("self", x))
+		return x
+	case "Set":
+		x := col.Set[any](n).Make()
+		for k := 0; k < siblings; k++ {
+			x.AddValue(int64(k))
+		}
+		x.AddValue(A.Make("self", x))
+		return x
+	case "Catalog":
+		x := col.Catalog[any, any](n).Make()
+		for k := 0; k < siblings; k++ {
+			x.SetValue(int64(k), int64(k))
+		}
+		x.SetValue("held", A.Make("self", x))
+		return x
+	case "Map":
+		x := col.Map[any, any](n).Make()
+		for k := 0; k < siblings; k++ {
+			x.SetValue(int64(k), int64(k))
+		}
+		x.SetValue("held", A.Make("self", x))
+		return x
+	}
+	x := col.List[any](n).Make()
+	for k := 0; k < siblings; k++ {
+		x.AppendValue(int64(k))
+	}
+	x.AppendValue(A.Make("self", x))
+	return x
 }
 
 func genCyclic(s core.Source) cyclicCase {
@@ -215,6 +274,9 @@ func genCyclic(s core.Source) cyclicCase {
 		inner = v
 	}
 	c.V = inner
+	if s.Choose(4, "via-association") == 0 {
+		c.Via = "association"
+	}
 	return c
 }
 
@@ -223,10 +285,16 @@ const depthMessage = "The maximum traversal depth was exceeded"
 func execCyclic(c cyclicCase, _ core.Source) (res core.Result) {
 	var obj, other any
 	if p, payload := lib.Call(func() {
-		obj = model.Build(c.V)
+		build := func() any {
+			if c.Via == "association" {
+				return buildViaAssociation(c.Kinds[0], c.Siblings[0])
+			}
+			return model.Build(c.V)
+		}
+		obj = build()
 		other = obj
 		if c.Other == "copy" {
-			other = model.Build(c.V)
+			other = build()
 		}
 	}); p {
 		// building a self-containing Set ranks the set against itself: that is the property under test as well
@@ -260,7 +328,7 @@ func execCyclic(c cyclicCase, _ core.Source) (res core.Result) {
 		}
 	})
 	if !p {
-		res.Violation = core.Violate("C08/cyclic/returned", "%s of the self-containing value %v returned instead of ending with the depth-limit panic", c.Op, c.V)
+		res.Violation = core.Violate("C08/cyclic/returned", "%s of the self-containing value %v (%s%s) returned instead of ending with the depth-limit panic", c.Op, c.V, c.Other, map[bool]string{true: "; here: a " + c.Kinds[0] + " holding an Association whose value is that " + c.Kinds[0], false: ""}[c.Via == "association"])
 		return
 	}
 	if s, ok := payload.(string); !ok || !strings.HasPrefix(s, depthMessage) {
@@ -292,6 +360,7 @@ func TestC08(t *testing.T) {
 	defer r.End()
 	core.DFS(r, core.Check[leafCase]{Name: "leaf-pools", Gen: genLeafCase, Exec: execLeaf("C08"), NoJournal: true}, 0)
 	core.DFS(r, core.Check[mixedCase]{Name: "mixed-primitives", Gen: genMixed, Exec: execMixed("C08"), NoJournal: true}, 0)
+	core.Rapid(r, core.Check[mapKeysCase]{Name: "map-keys", Gen: genMapKeys, Exec: execMapKeys("C08")}, r.N(1500, 15000))
 	core.Rapid(r, core.Check[poolCase]{Name: "composite-pools", Gen: genPool(true), Exec: execPool("C08")}, r.N(1500, 15000))
 	core.Rapid(r, core.Check[typedPoolCase]{Name: "typed-composites", Gen: genTypedPool, Exec: execTypedPool("C08")}, r.N(800, 8000))
 	core.Rapid(r, core.Check[mutantCase]{Name: "copies-and-mutants", Gen: genMutantBase, Exec: execMutants}, r.N(1500, 15000))
